@@ -345,3 +345,72 @@ def builtin_tables(ctx):
             disp[b] = r[1][0] if r[0] == 'calls' and len(r[1]) == 1 else repr(r)
         return {'names': names, 'dispatch': disp, 'line': f['line']}
     return _memo(ctx, 'builtin_tables', build)
+
+
+P = "parser::Parser::<'a>::"
+
+
+def first_parser_call(fn, b, limit=12):
+    """first call to a Parser method following block b along unique successors"""
+    for _ in range(limit):
+        t = fn.term(b)
+        if t['k'] == 'call':
+            n = callee_name(t)
+            if n.startswith(P):
+                return n[len(P):]
+            b = t['target']
+            if b is None:
+                return None
+            continue
+        if t['k'] == 'goto':
+            b = t['target']
+            continue
+        if t['k'] == 'return':
+            return '<return>'
+        return None
+    return None
+
+
+def pratt_tables(ctx):
+    """token dispatch of parse_expr: the initial (prefix/primary) match and the continuation-loop match"""
+    def build():
+        F = ctx.facts()
+        pe = F.fn(P + 'parse_expr')
+        loops = pe.natural_loops()
+        if not loops:
+            raise CheckerError('parse_expr has no loop (Pratt continuation loop anchor)')
+        header, body = max(loops, key=lambda x: len(x[1]))
+        names = {d: n for n, d in F.enum_variants(TOKEN)}
+        sw = None
+        for b in sorted(body):
+            t = pe.term(b)
+            if t['k'] == 'switch' and len(t['targets']) >= 3:
+                for st in pe.blocks[b]['stmts']:
+                    if st['k'] == 'assign' and st['rv']['k'] == 'discr' and st['rv']['enum'] == TOKEN \
+                            and place_fields(st['rv']['place']) == ['current_token']:
+                        sw = (b, t)
+        if sw is None:
+            raise CheckerError('parse_expr: the continuation loop has no match on the current token')
+        disp = {names[val]: first_parser_call(pe, tb) for val, tb in sw[1]['targets']}
+        other = first_parser_call(pe, sw[1]['otherwise'])
+        first_sw = None
+        for b in range(len(pe.blocks)):
+            if b in body:
+                continue
+            t = pe.term(b)
+            if t['k'] == 'switch' and len(t['targets']) >= 5:
+                for st in pe.blocks[b]['stmts']:
+                    if st['k'] == 'assign' and st['rv']['k'] == 'discr' and st['rv']['enum'] == TOKEN:
+                        first_sw = t
+                if first_sw:
+                    break
+        if first_sw is None:
+            raise CheckerError('parse_expr: no initial match on the current token')
+        first = {names[val]: first_parser_call(pe, tb) for val, tb in first_sw['targets']}
+        of = operator_from_token(ctx)['map']
+        infix_tokens = {t for t, c in disp.items() if c == 'parse_infix_expr'}
+        prefix_tokens = {t for t, c in first.items() if c == 'parse_prefix_expr'}
+        return {'fn': pe, 'loop': (header, body), 'dispatch': disp, 'other': other, 'switch': sw, 'first': first,
+                'infix_tokens': infix_tokens, 'prefix_tokens': prefix_tokens,
+                'infix_operators': {of.get(t) for t in infix_tokens}, 'prefix_operators': {of.get(t) for t in prefix_tokens}}
+    return _memo(ctx, 'pratt_tables', build)
